@@ -13,14 +13,20 @@ Definition exn_of_tag (t : Z) : exn :=
   | 16 => ConnectionRefusedError | 17 => ConnectionResetError | 18 => SocketTimeout | 19 => GaiError
   | 20 => MemcacheError | 21 => MemcacheClientError | 22 => MemcacheUnknownCommandError
   | 23 => MemcacheIllegalInputError | 24 => MemcacheServerError | 25 => MemcacheUnknownError
+  | 27 => WouldBlock
   | _ => MemcacheUnexpectedCloseError end.
 
 Definition outcome_of (d : dyn) : outcome :=
+  match d with DTuple [DInt t] => OFail (exn_of_tag t) | _ => ONormal end.
+(* recv choices: DInt n > 0 chunk of at most n bytes; DInt 0 EINTR; (tag,) raise; None end of stream *)
+Definition choice_of (d : dyn) : choice :=
   match d with
-  | DInt 1 => OEintr
-  | DTuple [DInt t] => OFail (exn_of_tag t)
-  | DBytes b => OData b
-  | _ => ONormal end.
+  | DInt 0 => CEintr
+  | DInt n => CChunk n
+  | DTuple [DInt t] => CFail (exn_of_tag t)
+  | _ => CEof end.
+Fixpoint bytes_list (l : list dyn) : list (list Z) :=
+  match l with DBytes b :: t => b :: bytes_list t | _ :: t => bytes_list t | [] => [] end.
 Definition b_of (d : dyn) : bool := py_truthy d.
 Definition cfg_of (l : list dyn) : option cfg :=
   match l with
